@@ -7,7 +7,8 @@
    m_tasks / m_stop are under the mutex; condition_variable::wait(lock, pred) releases the lock and
    sleeps atomically).  notify_one wakes exactly one sleeping worker if there is one; notify_all
    wakes all of them; spurious wake-ups are allowed at any time. *)
-From Coq Require Import List Arith Bool.
+From Coq Require Import List Arith Bool ZArith.
+From LNGen Require Import Src_parallel.
 Import ListNotations.
 
 Definition tid := nat.   (* task id (unique per configuration) *)
@@ -109,7 +110,10 @@ Fixpoint inline_prefix (thr : tid -> bool) (ts : list tid) : list tid :=
   end.
 
 (* the fast path of map(): executed by the caller itself *)
-Definition map_inline (p : pool) (ts : list tid) : bool := Nat.eqb (nw p) 1 || Nat.leb (length ts) 1.
+(* the test is the one of pool_t::map(elements, op), translated from the source: size() == 1 || elements <= 1
+   (for the chunked overload see chunked_inline and theorem C17_chunked_inline_consistent) *)
+Definition map_inline (p : pool) (ts : list tid) : bool :=
+  src_indexed_inline (Z.of_nat (nw p)) (Z.of_nat (length ts)).
 
 Definition step (p : pool) (e : event) : option pool :=
   match e with
@@ -320,8 +324,6 @@ Definition enabled (p : pool) : list event :=
   filter (fun e => match step p e with Some _ => true | None => false end) (candidates p).
 
 (* ---- chunking of map(elements, chunksize, op) ------------------------------------------------- *)
-From Coq Require Import ZArith.
-From LNGen Require Import Src_parallel.
 Local Open Scope Z_scope.
 
 (* for (begin = 0; begin < elements; begin += chunksize) op(begin, min(begin + chunksize, elements)) *)
